@@ -268,8 +268,8 @@ func StartSUT(w *World, h *History, conf SrvConf, port int) (*SUT, error) {
 	s := &SUT{w: w, h: h, Conf: conf, Port: port, serveRet: NewFlag()}
 	s.ctx, s.cancel = context.WithCancel(context.Background())
 	srvTLS, _ := TLSConfigs()
-	tcpCfg := &lime.TCPConfig{}
-	wsCfg := &lime.WebsocketConfig{}
+	tcpCfg := SrvTCPConfig(false)
+	wsCfg := SrvWSConfig(false)
 	if conf.TLSCap {
 		tcpCfg.TLSConfig = srvTLS
 		wsCfg.TLSConfig = srvTLS
